@@ -72,6 +72,29 @@ class OneShotStream(io.TextIOBase):
         return out
 
 
+MORE_ENCODINGS = ['utf-8-sig', 'utf-16-le', 'utf-16-be', 'utf-32-le', 'utf-32-be', 'utf-7', 'cp037', 'cp500', 'iso8859-15', 'mac-roman', 'koi8-r', 'big5', 'euc-jp', 'iso2022_jp', 'UTF8', 'Latin_1',
+                  'UTF_16_BE', 'utf16', 'U8', 'l1', 'cp65001' if False else 'utf_8_sig']
+WRAP_ENCODINGS = ['utf-8', 'latin-1', 'utf-16', 'cp1252', 'utf-8-sig']
+
+
+class _Str(str):
+    pass
+
+
+class _Bytes(bytes):
+    pass
+
+
+class _StringIO(io.StringIO):
+    pass
+
+
+def _positioned(data, enc, header):
+    f = io.TextIOWrapper(io.BytesIO(data), encoding=enc)
+    f.readline()
+    return f
+
+
 def oracle_forms(ctx, s):
     base = results(s)
     ctx.evaluations += 1
@@ -84,7 +107,36 @@ def oracle_forms(ctx, s):
     st.read(len(header))
     forms.append(('stream-positioned', st, None))
     forms.append(('stream-unseekable', lambda: OneShotStream(s), None))
-    for enc in ENCODINGS:
+    # the same str/bytes/stream objects as instances of subclasses (what ORMs, drivers and test doubles hand over)
+    forms.append(('str-subclass', _Str(s), None))
+    forms.append(('stream-subclass', lambda: _StringIO(s), None))
+    # real text file objects: a TextIOWrapper over bytes (what open(path, encoding=…) returns).  It decodes AND translates line ends, so the reference is
+    # what such an object yields when read; also handed over after the caller read a header line (its byte buffer is then ahead of its text position)
+    k = len(s) % len(WRAP_ENCODINGS)
+    for enc in (WRAP_ENCODINGS[k],):
+        try:
+            data = s.encode(enc)
+            ref = io.TextIOWrapper(io.BytesIO(data), encoding=enc).read()
+            hdata = (header + s).encode(enc)
+            if data.decode(enc) != s or hdata.decode(enc) != header + s:
+                continue
+        except Exception:
+            continue
+        refres = base if ref == s else results(ref)
+        for name, mk in (('textfile+%s' % enc, lambda data=data, enc=enc: io.TextIOWrapper(io.BytesIO(data), encoding=enc)),
+                         ('textfile-positioned+%s' % enc, lambda hdata=hdata, enc=enc: _positioned(hdata, enc, header))):
+            if name.startswith('textfile-positioned') and ('\r' in header + s or not header.endswith('\n')):
+                continue
+            r = results(mk, None)
+            ctx.evaluations += 1
+            ctx.count('form:' + name.split('+')[0])
+            for kk in refres:
+                if r[kk] != refres[kk]:
+                    ctx.fail('%s of the %s form differs from the str form of what the file object yields' % (kk, name), s, observed=str(r[kk])[:200], required=str(refres[kk])[:200], form=name)
+                    return
+    # beyond the core list: two more encodings per text, rotating (endianness-specific, signature-writing, stateful, EBCDIC, other spellings of a name)
+    j = len(s) % len(MORE_ENCODINGS)
+    for enc in ENCODINGS + [MORE_ENCODINGS[j], MORE_ENCODINGS[(j + 5) % len(MORE_ENCODINGS)]]:
         try:
             b = s.encode(enc)
             if b.decode(enc) != s:
@@ -94,6 +146,7 @@ def oracle_forms(ctx, s):
         forms.append(('bytes+%s' % enc, b, enc))
         if enc == 'utf-8':
             forms.append(('utf8-bytes', b, None))
+            forms.append(('bytes-subclass', _Bytes(b), None))
     for name, x, enc in forms:
         r = results(x, enc)
         ctx.evaluations += 1
@@ -149,7 +202,7 @@ def flags_to_opts(flags):
     return o
 
 
-def oracle_cli(ctx, tmp, s, enc, flags, use_stdin, use_outfile, inplace=False, opts=None, io_encoding=None):
+def oracle_cli(ctx, tmp, s, enc, flags, use_stdin, use_outfile, inplace=False, opts=None, io_encoding=None, default_encoding=False):
     try:
         data = s.encode(enc)
         if data.decode(enc) != s:
@@ -168,8 +221,12 @@ def oracle_cli(ctx, tmp, s, enc, flags, use_stdin, use_outfile, inplace=False, o
             if os.path.lexists(outp):
                 os.unlink(outp)
             os.symlink(inp, outp)
-    args = [PY, '-m', 'sqlparse'] + (['-'] if use_stdin else [inp]) + flags + ['--encoding', enc] + (['-o', outp] if use_outfile else [])
+    args = [PY, '-m', 'sqlparse'] + (['-'] if use_stdin else [inp]) + flags + ([] if default_encoding else ['--encoding', enc]) + (['-o', outp] if use_outfile else [])
     env = dict(os.environ, PYTHONIOENCODING=io_encoding or enc, PYTHONPATH=REPO)
+    if default_encoding:
+        # no --encoding: the documented default is utf-8 whatever the platform's preferred encoding is (here: the C locale, no UTF-8 mode)
+        assert enc == 'utf-8'
+        env.update(LC_ALL='C', LANG='C', PYTHONUTF8='0', PYTHONCOERCECLOCALE='0')
     p = subprocess.run(args, input=data if use_stdin else None, stdout=subprocess.PIPE, stderr=subprocess.PIPE, env=env, cwd=tmp, timeout=60)
     # what the CLI reads: text-mode decoding (universal newlines)
     text = io.TextIOWrapper(io.BytesIO(data), encoding=enc).read()
@@ -184,7 +241,7 @@ def oracle_cli(ctx, tmp, s, enc, flags, use_stdin, use_outfile, inplace=False, o
         return
     if p.returncode != 0:
         ctx.fail('sqlformat exited with status %d' % p.returncode, s, observed=p.stderr.decode('utf-8', 'replace')[-300:], required='status 0', flags=flags, encoding=enc, io_encoding=io_encoding,
-                 channel=('stdin' if use_stdin else 'file') + '->' + (('inplace:%s' % inplace if inplace else 'outfile') if use_outfile else 'stdout'))
+                 channel=('stdin' if use_stdin else 'file') + '->' + (('inplace:%s' % inplace if inplace else 'outfile') if use_outfile else 'stdout'), default_encoding=default_encoding)
         return
     if use_outfile:
         got = open(outp, 'rb').read().decode(enc)
@@ -304,6 +361,10 @@ def cli_sweep(ctx, tmp):
     oracle_cli(ctx, tmp, "select 'é€' from t -- ü\n", 'utf-8', ['-k', 'upper'], True, True, io_encoding='latin-1')
     oracle_cli(ctx, tmp, "select 'é' from t -- ü\n", 'latin-1', [], True, True, io_encoding='utf-8')
     oracle_cli(ctx, tmp, "select 'é' from t -- ü\n", 'cp437', ['-r'], False, True, io_encoding='ascii')
+    # the option defaults: no --encoding at all, in an environment whose preferred encoding is not UTF-8
+    for use_stdin in (False, True):
+        for use_outfile in (False, True):
+            oracle_cli(ctx, tmp, "select 'é€日本' from t -- ü\nwhere x = 1", 'utf-8', ['-r'], use_stdin, use_outfile, io_encoding='utf-8', default_encoding=True)
     try:
         from sqlparse import cli as _cli
         known = set(FLAG_OPTS) | set(VAL_OPTS) | set(LONG_FLAGS) | {'-o', '--outfile', '--version', '--encoding', '-h', '--help'}
@@ -394,7 +455,8 @@ def replay(ctx, payload):
         try:
             ch = ex.get('channel', 'file->stdout')
             oracle_cli(ctx, tmp, payload['input'], ex['encoding'], ex['flags'], ch.startswith('stdin'), ch.endswith('outfile') or 'inplace' in ch,
-                       inplace=(ch.split('inplace:')[1] if 'inplace:' in ch else False), opts=sweep_opts(ex['flags']), io_encoding=ex.get('io_encoding'))
+                       inplace=(ch.split('inplace:')[1] if 'inplace:' in ch else False), opts=sweep_opts(ex['flags']), io_encoding=ex.get('io_encoding'),
+                       default_encoding=bool(ex.get('default_encoding')))
         finally:
             shutil.rmtree(tmp, ignore_errors=True)
     else:
